@@ -35,4 +35,10 @@ elif B in s:
     s = s[: s.index(B)] + block + s[s.index(E) + len(E):]
 open(p, "w").write(s)
 caught = sum(1 for r in rows if "CAUGHT" in r)
+quick_caught = 0
+for d in sorted(glob.glob(os.path.join(HERE, "seeded", "*"))):
+    m = json.load(open(os.path.join(d, "meta.json")))
+    r = m.get("detected_by", {}).get(m["property"])
+    quick_caught += 1 if isinstance(r, dict) and r.get("exit") == 1 else 0
+print(f"caught by the quick tier: {quick_caught}")
 print(f"{len(rows)} seeds, {caught} caught by their property's check")
